@@ -14,3 +14,10 @@ package rfc
 //@   assigns \fresh
 //@   loop 3 invariant 0 <= i
 //@   ensures result != nil
+
+// ---------------------------------------------------------------------------
+// signature independence (C09): the only readers of the complete encoding c.Raw. Each is
+// assumed (by inspection; not verified) to depend on it only through the parts named.
+//@ table c09_raw_readers
+//@   rfc.(*mismatchingSigAlg).Execute        -- walks tbsCertificate.signature and signatureAlgorithm, stops before signatureValue
+//@   rfc.(*certExtensionInvalidDER).Execute  -- only whether asn1.Unmarshal of the whole certificate succeeds (the BIT STRING content is opaque)
